@@ -248,6 +248,7 @@ fn c09_main(args: &[String]) -> i32 {
         Some("child") => {
             let tier = if args.get(3).map(|s| s.as_str()) == Some("thorough") { Tier::Thorough } else { Tier::Quick };
             let ctx = Ctx::new("C09", tier, "exploration");
+            ctx.enable_traced_pass(4);
             let n = tier.pick(16, 32);
             let (shards, per) = tier.pick((16, 1000), (16, 12000));
             run_prop(&ctx, "serde-loaded", shards, per, loaded, |c, p| judge_loaded(c, p, n), loaded_json);
@@ -257,6 +258,9 @@ fn c09_main(args: &[String]) -> i32 {
         Some("--replay") => {
             let path = &args[3];
             let doc: Value = serde_json::from_str(&std::fs::read_to_string(path).expect("replay file")).expect("json");
+            if doc.get("check").and_then(|c| c.as_str()).map(|c| c.ends_with("-trace-logging")).unwrap_or(false) {
+                set_trace_logging(true);
+            }
             let mut ctx = Ctx::new("C09", Tier::Quick, "exploration");
             ctx.replay_mode = true;
             let c = loaded_from_json(doc.get("case").unwrap_or(&Value::Null)).expect("case");
@@ -290,6 +294,7 @@ fn main() {
         "quick" | "thorough" => {
             let tier = if args[2] == "quick" { Tier::Quick } else { Tier::Thorough };
             let ctx = Ctx::new("C20", tier, "exploration");
+            ctx.enable_traced_pass(4);
             ctx.set_rule("proptest-generated model messages (domain of C01, utc_dir widened to any char) serialised with serde_json and deserialised (after three truncated copies of the same document have been fed to the deserialiser on the same thread, outcome not asserted; then again through from_value, to_value+from_value, from_slice and from_reader): header, groups, names, values must be equal WITHOUT identifying one-element sets; re-serialising gives the same JSON document (map-order-insensitive); payload reads as empty afterwards; bare IppAttributes and every bare IppValue round-trip too. Non-trivial = contains a raw-octet (Other) value with data, a collection nested >=2, or non-ASCII text/char; distinct by hash of the model message.");
             ctx.assume("JSON (serde_json) is the carrier format");
             let (shards, per) = tier.pick((16, 6000), (16, 100000));
@@ -299,6 +304,9 @@ fn main() {
         "--replay" => {
             let path = &args[3];
             let doc: Value = serde_json::from_str(&std::fs::read_to_string(path).expect("replay file")).expect("json");
+            if doc.get("check").and_then(|c| c.as_str()).map(|c| c.ends_with("-trace-logging")).unwrap_or(false) {
+                set_trace_logging(true);
+            }
             let mut ctx = Ctx::new("C20", Tier::Quick, "exploration");
             ctx.replay_mode = true;
             let m = mmsg_from_json(doc.get("case").unwrap_or(&Value::Null)).expect("case");
